@@ -5,15 +5,7 @@ import json, subprocess, sys
 props = [json.loads(l) for l in open('/verif/properties.jsonl')]
 built = set(subprocess.run(['/verif/bin/verifcheck', '-list'], capture_output=True, text=True).stdout.split())
 
-# id -> (technique, level text, level note, design ref)
-T = {
- 'C34': ('guarded-by must-hold lock dataflow on SSA + comparator table evaluation',
-         'Decides, for every path of every function of lib/transaction, that the queue state (pq, txs, currOrder) is only touched under its mutex, writes under the exclusive lock, no re-entrant acquisition, one critical section per operation, duplicate test and heap push in the same critical section, and that Less is (priority desc, order asc) by finite evaluation of its comparison table. These are necessary conditions of race-freedom/linearizability and ordering for all schedules; the full linearizability of histories is not decided.',
-         'container/heap trusted; the frozen guarded-by table is the hand-confirmed lock discipline', 'DESIGN.md §3 R-LOCKS, R-CMP; §4 C34'),
- 'C35': ('guarded-by must-hold lock dataflow on SSA',
-         'Decides for every path of every function of lib/utils/lru-cache that cache/lruList are read under the lock, mutated (map store/delete, container/list mutators incl. MoveToFront) only under the exclusive lock, never re-acquired, and that each operation is one critical section. Necessary for race-freedom and linearizability under every schedule; the sequential LRU semantics are not decided.',
-         'container/list trusted and known to be unsynchronised; mutator name table', 'DESIGN.md §3 R-LOCKS; §4 C35'),
-}
+T = json.loads(subprocess.run(['/verif/bin/verifcheck', '-manifest'], capture_output=True, text=True).stdout)
 
 PLANNED = {
  'C22': 'quantifies over all protocol executions (delays, reorderings, Byzantine behaviour): a model-checking question with no clause visible in the shape of the code beyond the threshold/verified-vote rules already claimed under C18/C21',
@@ -25,7 +17,7 @@ checks, na = [], []
 for p in props:
     pid = p['id']
     if pid in built and pid in T:
-        tech, text, note, ref = T[pid]
+        tech, text, note, ref = T[pid]['technique'], T[pid]['text'], T[pid]['note'], T[pid]['ref']
         checks.append({
             'property_id': pid,
             'quick_cmd': f'./check.sh {pid} quick',
